@@ -127,7 +127,7 @@ def strat_routes(tier):
         'dtype': st.sampled_from(['complex128', 'complex128', 'float64', 'complex64', 'float32']),
         'prec': st.sampled_from([64, 64, 64, 32]),
         'fwd': st.booleans(),
-        'via': st.sampled_from(['executor', 'executor', 'function', 'wavefront']),
+        'via': st.sampled_from(['executor', 'executor', 'function', 'wavefront']), 'layout': U.layouts,
         'phys': st.fixed_dictionaries({'dx': st.sampled_from([0.1, 0.25, 1.0, 0.037]), 'wvl': st.sampled_from([0.5, 0.6328, 1.55]),
                                        'efl': st.sampled_from([10.0, 100.0, 1234.5])}),
         'seed': U.seeds,
@@ -155,12 +155,13 @@ def check_routes(case, ctx):
         out_arg = int(outp[0]) if isinstance(out, int) else outp
     else:
         out_arg = U.tup(out)
-    f = _cast(U.field(case['seed'], shape, case['kind']), dtype)
+    f = U.relayout(_cast(U.field(case['seed'], shape, case['kind']), dtype), case.get('layout', 'C'))   # same values, any memory layout
+    f_before = f.copy()
     shifted = any(s != 0 for s in shift)
     square = shape[0] == shape[1]
     ctx.nt(not (square and tuple(shape) == outp and Q == 1 and not shifted and dtype.startswith('float')))
     ctx.label('via:' + via, 'prec%d' % prec, dtype, 'shifted' if shifted else 'unshifted', 'square' if square else 'nonsquare',
-              'peraxisQ' if isinstance(Q, tuple) else 'scalarQ', 'fwd' if fwd else 'inv', 'kind:' + case['kind'])
+              'peraxisQ' if isinstance(Q, tuple) else 'scalarQ', 'fwd' if fwd else 'inv', 'kind:' + case['kind'], 'layout:' + case.get('layout', 'C'))
     tol = _tol(prec, dtype)
     with U.precision(prec):
         if via == 'executor':
@@ -181,6 +182,7 @@ def check_routes(case, ctx):
                             'shift-sign:mdft-vs-czt', 'mdft and czt translate in opposite directions for shift=%r' % (shift,))
                 e = float(np.abs(np.abs(outs['mdft']) - np.abs(outs['czt'])).max()) / _scale(f, Q)
                 ctx.require(e <= 2 * tol, 'routes-differ-in-modulus', 'mdft vs czt modulus differs by %.3g for shift=%r' % (e, shift))
+            U.check_equal(f, f_before, 'input-modified', 'the transform modified its input array')
             return
         # physical routes: Q and the sample shift are derived from (dx, wavelength, efl, output dx)
         ph = case['phys']
@@ -218,6 +220,7 @@ def check_routes(case, ctx):
             res[method] = _cmp(ctx, o, ref_p, ref_m, shifted, 10 * tol, b,
                                '%s via %s %s %s->%s dx_in=%g dx_out=%g shift=%r' % (method, via, 'focus' if fwd else 'unfocus', shape, outp, dx_in, dxo, sh_units),
                                _scale(f, Qtrue))
+        U.check_equal(f, f_before, 'input-modified', 'the propagation modified its input array')
 
 
 # ---- (c) FFT route ----------------------------------------------------------------------------------
@@ -228,16 +231,17 @@ def strat_fft(tier):
         'shape': st.one_of(st.tuples(ax, ax).map(list), ax.map(lambda k: [k, k])),
         'Q': st.one_of(st.integers(1, 4), st.sampled_from([1, 2, 1.5, 1.25, 2.5, 3]), U.nice_float(1, 3).map(lambda v: round(v, 2))),
         'kind': U.field_kinds, 'fwd': st.booleans(), 'via': st.sampled_from(['function', 'wavefront']),
-        'dtype': st.sampled_from(['complex128', 'float64', 'complex64']), 'seed': U.seeds})
+        'dtype': st.sampled_from(['complex128', 'float64', 'complex64']), 'layout': U.layouts, 'seed': U.seeds})
 
 
 def check_fft(case, ctx):
     """focus / unfocus (padded FFT) equal the textbook DFT of the field on the padded grid ceil(n*Q)."""
     from prysm import propagation as P
     shape, Q, fwd = case['shape'], case['Q'], case['fwd']
-    f = _cast(U.field(case['seed'], shape, case['kind']), case['dtype'])
+    f = U.relayout(_cast(U.field(case['seed'], shape, case['kind']), case['dtype']), case.get('layout', 'C'))
     padded = tuple(math.ceil(s * Q) for s in shape) if Q != 1 else tuple(shape)
     ctx.nt(not (shape[0] == shape[1] and Q == 1 and case['dtype'] == 'float64'))
+    ctx.label('layout:' + case.get('layout', 'C'))
     ctx.label('via:' + case['via'], 'square' if shape[0] == shape[1] else 'nonsquare', 'Q=1' if Q == 1 else ('intQ' if Q == int(Q) else 'floatQ'),
               'parity:%s%s->%s%s' % ('eo'[shape[0] % 2], 'eo'[shape[1] % 2], 'eo'[padded[0] % 2], 'eo'[padded[1] % 2]))
     Qeff = (padded[0] / shape[0], padded[1] / shape[1])
